@@ -22,12 +22,12 @@ PROPERTY = "C42"
 LEVEL = "exploration"
 BUDGET = {"quick": (1500, 12), "thorough": (40_000, 200)}
 WORKERS = {"quick": 4, "thorough": 16}
-REQUIRED = ["accepted", "verdict", "variant_accepted", "variant_changes_verdict", "empty_matching_regex_on_empty_body"]
+REQUIRED = ["accepted", "verdict", "variant_accepted", "variant_changes_verdict", "empty_matching_regex_on_empty_body", "tight_juxtaposition"]
 ENGINE = "direct"
 TECHNIQUE = "differential against an independent three-valued reference evaluator of the documented grammar"
 RULE = (
     "case = one random filter AST (depth<=5, all 32 documented operators, !, &, |, juxtaposition) rendered once with random "
-    "spacing/parentheses/quoting and evaluated on a fresh pool of 12 flows (http, http+response, websocket, tcp, udp, dns) whose "
+    "spacing (30% of renderings drop every whitespace the tokenisation does not need)/parentheses/quoting and evaluated on a fresh pool of 12 flows (http, http+response, websocket, tcp, udp, dns) whose "
     "facts the generator fixed (bodies missing / present-but-empty / non-empty, empty header values, empty marker/comment); regex arguments are derived from substrings of what the operator looks at (with case flips, "
     "wildcards, anchors, alternation; 12% are regexes that match the empty string: ^$ .* x? \\A\\Z (?:) ...) so leaves are true on some flows; in the same process the tree is then parsed again up to twice with "
     "regex arguments that differ only in letter case (\\d/\\D \\w/\\W \\s/\\S \\b/\\B swapped, literal letters re-cased) and sibling operators, and "
@@ -38,6 +38,7 @@ RULE = (
 ASSUMPTIONS = [
     "inside quoted arguments the backslash is an escape character (\\\\ -> \\, \\q -> q); the docs do not say so, this is the reading most favourable to the implementation",
     "the docs do not rank juxtaposition against |, so a juxtaposed conjunction is never rendered directly under |",
+    "whitespace between juxtaposed terms is optional exactly where a reserved character (~ ( ) ' \") already ends the left token: after an operator name, a numeric code, an unquoted regex, a closing quote or parenthesis when ~operator, ( or a quote follows (and ! unless the left term ends in an unquoted regex); it is kept where two tokens would fuse (unquoted regex + ! or unquoted regex, operator name or code + unquoted regex). On the unchanged grammar all asserted pairs parse to the same tree as the spaced form",
     "regex flags other than IGNORECASE, DNS bodies/URLs, and which of host / Host header is 'the' URL host are undocumented: leaves depending on them are undetermined and skipped",
     "header operators are documented to match 'name: value' strings, so the reference matches each header line separately",
 ]
@@ -180,6 +181,9 @@ def run_case(ctx):
         ctx.count("accepted_respelled")
         text = alt
 
+    for pair in st["tight_pairs"]:
+        ctx.count("tight_juxtaposition")
+        ctx.seen("tight_pairs", "%s+%s" % pair)
     verdicts = evaluate(ctx, text, ast, flt, pool, flows)
 
     # ---- history in one process: the same tree again with regex arguments that differ only in letter case (\\d/\\D,
@@ -219,6 +223,49 @@ def run_case(ctx):
     ctx.case(sig, nontrivial, sample_of(text, ast, pool, verdicts))
 
 
+# ---------------------------------------------------------------------------------------------
+# fixed matrix: every kind of left neighbour x every kind of right neighbour, juxtaposed with zero whitespace
+# ---------------------------------------------------------------------------------------------
+L = lambda op, arg=None: ("leaf", op, arg)  # noqa: E731
+# (kind of first token, kind of last token, text, tree)
+TERMS = (
+    [("unary", "unary", "~" + op, L(op)) for op in ref.UNARY]
+    + [("opa", "num", "~c 200", L("c", 200)), ("opa", "word", "~u example", L("u", "example")), ("opa", "word", "~m GET", L("m", "GET")),
+       ("opa", "word", "~d 10", L("d", "10")), ("opa", "word", "~b hello", L("b", "hello")), ("word", "word", "example", L("", "example")),
+       ("word", "word", "8080", L("", "8080")), ("quoted", "quoted", "'example'", L("", "example")), ("quoted", "quoted", '"org"', L("", "org")),
+       ("opa", "quoted", '~m "POST"', L("m", "POST")), ("(", ")", "(~e)", L("e")), ("(", ")", "(~c 404)", L("c", 404)),
+       ("(", ")", "(~tcp|~udp)", ("or", [L("tcp"), L("udp")])), ("!", "unary", "!~s", ("not", L("s"))), ("!", "unary", "!~marked", ("not", L("marked"))),
+       ("!", "num", "!~c 200", ("not", L("c", 200))), ("!", "word", "!~u org", ("not", L("u", "org")))]
+)
+
+
+def run_matrix(ctx):
+    """Every term as left neighbour x every term as right neighbour, juxtaposed with zero whitespace wherever the
+    tokenisation allows it (gen.tight_jux_ok), plus left+right+left chains."""
+    r = ctx.case_rng(-1, "matrix")
+    pool = [gen.gen_facts(r, t) for t in ("http", "http", "http", "tcp", "udp", "dns")] + [gen.gen_facts(r) for _ in range(10)]
+    flows = [gen.build_flow(f) for f in pool]
+    for ls, le, lt, la in TERMS:
+        for rs, re_, rt, ra in TERMS:
+            if not gen.tight_jux_ok(le, rs):
+                continue
+            cases = [(lt + rt, ("and", [la, ra]))]
+            if gen.tight_jux_ok(re_, ls) and ctx.tier == "thorough":
+                cases.append((lt + rt + lt, ("and", [la, ra, la])))
+            for text, ast in cases:
+                ctx.count("accepted")
+                ctx.count("tight_juxtaposition")
+                ctx.seen("tight_pairs", f"{le}+{rs}")
+                flt, err = parse(text)
+                if flt is None:
+                    ctx.violation("rejected", {"filter": text, "ast": ast, "error": repr(err.__cause__ or err), "spaced_form": lt + " " + rt})
+                    continue
+                verdicts = evaluate(ctx, text, ast, flt, pool, flows)
+                ctx.case(("matrix", le, rs), True in verdicts and False in verdicts, {"filter": text, "ast": ast})
+
+
 def run(ctx):
+    if ctx.only_case is None and ctx.worker == 0:
+        ctx.guard(run_matrix, ctx, what="matrix")
     for _ in ctx.cases():
         ctx.guard(run_case, ctx, what="harness")
